@@ -22,6 +22,8 @@ import (
 	"github.com/containerd/nri/pkg/stub"
 	"github.com/containerd/ttrpc"
 	"github.com/sirupsen/logrus"
+	"google.golang.org/grpc/codes"
+	"google.golang.org/grpc/status"
 	"google.golang.org/protobuf/proto"
 )
 
@@ -36,6 +38,12 @@ type Spec struct {
 	PodsRLE [][2]int `json:"pods_rle,omitempty"` // [count, padding] runs, expanded into Pods on load
 	CtrsRLE [][2]int `json:"ctrs_rle,omitempty"`
 	Plugin  string   `json:"plugin"` // raw | stub
+	// Code: the kind of error the scripts err and errfinal answer with: "" (a plain Go error, gRPC code
+	// Unknown on the wire) | resource_exhausted | unavailable | internal (a gRPC status of that code).
+	// Once: errfinal fails only the FIRST message not flagged More (stub: the first invocation of the
+	// handler); a runtime that wrongly sends the state again then finds a plugin that accepts it.
+	Code string `json:"code,omitempty"`
+	Once bool   `json:"once,omitempty"`
 	// Script of the plugin end: good | badmore | earlyupd | err | errfinal.
 	// badmore / earlyupd / err act on message number At (1-based); badmore and
 	// earlyupd only when that message is flagged More.  errfinal fails the
@@ -97,6 +105,7 @@ type Obs struct {
 	HandlerCalls   int      `json:"handler_calls"` // stub plugin: invocations of the Synchronize handler
 	HandlerPodRuns [][2]int `json:"hpr"`           // arguments of the first invocation
 	HandlerCtrRuns [][2]int `json:"hcr"`
+	Invocations    []HCall  `json:"invocations"` // stub plugin: every invocation with what it saw, in order
 	GotUpd         []int    `json:"got_upd"` // updates the runtime's sync call-back was handed
 	Active         bool     `json:"active"`  // the plugin received the event sent after registration
 	Millis         int64    `json:"ms"`
@@ -222,6 +231,8 @@ type recorder struct {
 	probe    bool
 	calls    int
 	hpr, hcr [][2]int
+	invs     []HCall
+	finals   int // raw plugin: messages not flagged More received so far
 }
 
 func (r *recorder) record(req *api.SynchronizeRequest) (n int, over bool) {
@@ -246,6 +257,19 @@ func updates(n int) []*api.ContainerUpdate {
 }
 
 var errScript = errors.New("verif: scripted plugin failure")
+
+// scriptErr is the error the scripts err and errfinal answer with (Spec.Code).
+func scriptErr(sp *Spec) error {
+	switch sp.Code {
+	case "resource_exhausted":
+		return status.Error(codes.ResourceExhausted, "verif: scripted plugin failure (busy)")
+	case "unavailable":
+		return status.Error(codes.Unavailable, "verif: scripted plugin failure (unavailable)")
+	case "internal":
+		return status.Error(codes.Internal, "verif: scripted plugin failure (internal)")
+	}
+	return errScript
+}
 
 // errRegister: the plugin end's RegisterPlugin call (raw plugin) or Start (stub) returned an error.
 // The runtime answers RegisterPlugin and goes on to configure and synchronise the plugin at once; when
@@ -272,11 +296,17 @@ func (p *rawPlugin) Synchronize(_ context.Context, req *api.SynchronizeRequest) 
 	switch sp.Script {
 	case "err":
 		if n == sp.At {
-			return nil, errScript
+			return nil, scriptErr(sp)
 		}
 	case "errfinal":
 		if !req.More {
-			return nil, errScript
+			p.rec.Lock()
+			p.rec.finals++
+			first := p.rec.finals == 1
+			p.rec.Unlock()
+			if first || !sp.Once {
+				return nil, scriptErr(sp)
+			}
 		}
 	case "badmore":
 		if req.More && n == sp.At {
@@ -367,12 +397,14 @@ func (p *stubPlugin) Synchronize(_ context.Context, pods []*api.PodSandbox, ctrs
 	r := p.rec
 	r.Lock()
 	r.calls++
-	if r.calls == 1 {
+	first := r.calls == 1
+	if first {
 		r.hpr, r.hcr = podRuns(pods), ctrRuns(ctrs)
 	}
+	r.invs = append(r.invs, HCall{PodRuns: podRuns(pods), CtrRuns: ctrRuns(ctrs)})
 	r.Unlock()
-	if r.sp.Script == "errfinal" {
-		return nil, errScript
+	if r.sp.Script == "errfinal" && (first || !r.sp.Once) {
+		return nil, scriptErr(r.sp)
 	}
 	return updates(r.sp.NUpd), nil
 }
@@ -569,7 +601,7 @@ func runCase(dir string, k int, sp *Spec) (*Obs, error) {
 			poisoned = true
 			rec.Lock()
 			o.Msgs = append(o.Msgs, rec.msgs...)
-			o.HandlerCalls, o.HandlerPodRuns, o.HandlerCtrRuns = rec.calls, rec.hpr, rec.hcr
+			o.HandlerCalls, o.HandlerPodRuns, o.HandlerCtrRuns, o.Invocations = rec.calls, rec.hpr, rec.hcr, append([]HCall{}, rec.invs...)
 			rec.Unlock()
 			o.Outcome, o.StallS, o.Exit = "stalled", int(stallOf(sp.StallS).Seconds()), true
 			o.Millis = time.Since(t0).Milliseconds()
@@ -588,7 +620,7 @@ func runCase(dir string, k int, sp *Spec) (*Obs, error) {
 	rec.Lock()
 	defer rec.Unlock()
 	o.Msgs = append(o.Msgs, rec.msgs...)
-	o.HandlerCalls, o.HandlerPodRuns, o.HandlerCtrRuns = rec.calls, rec.hpr, rec.hcr
+	o.HandlerCalls, o.HandlerPodRuns, o.HandlerCtrRuns, o.Invocations = rec.calls, rec.hpr, rec.hcr, append([]HCall{}, rec.invs...)
 	o.Active = rec.probe
 	switch {
 	case rec.livelock:
